@@ -643,6 +643,7 @@ class KernelS(KernelX):
             if isinstance(blk, list) and w in blk:
                 i = blk.index(w)
                 xnames = getattr(w, '_xnames', set()) | {E}
+                found_strict, two_entries = [False], [False]
                 for s in reversed(blk[:i]):
                     # every arm of an if / elif chain that ends in an exit is a candidate guard
                     arms, c, chain_ok = [], s, isinstance(s, ast.If)
@@ -658,19 +659,42 @@ class KernelS(KernelX):
                         for arm in arms:
                             if not (arm.body and isinstance(arm.body[-1], (ast.Break, ast.Continue, ast.Return, ast.Raise))):
                                 continue
-                            t = arm.test
+                            # every disjunct of an `or` test leaves on its own
+                            tests = list(arm.test.values) if isinstance(arm.test, ast.BoolOp) and isinstance(arm.test.op, ast.Or) else [arm.test]
                             # `X >= E[-1]` always suffices; `X > E[-1]` suffices for a strict search `while X > E[b+1]` (at X == E[-1] the
-                            # search stops with b+1 the last index)
+                            # search stops with b+1 the last index) PROVIDED the edge array has at least two entries: with a single edge,
+                            # X == E[0] passes the closed test and the search reads E[1] (F44: mubins=0).  That the array has two entries
+                            # must then be known: an exit on `<last index> < 1` in the same iteration, or the contract.
                             strict_search = isinstance(getattr(w, 'test', None), ast.Compare) and isinstance(w.test.ops[0], ast.Gt)
-                            if isinstance(t, ast.Compare) and len(t.ops) == 1 and (isinstance(t.ops[0], ast.GtE) or (isinstance(t.ops[0], ast.Gt) and strict_search)) \
-                                    and norm(t.left) == X:
-                                r = t.comparators[0]
-                                if isinstance(r, ast.Subscript) and isinstance(r.value, ast.Name) and r.value.id == E and self._is_last_index(r.slice, E):
-                                    return True
+                            for t in tests:
+                                if isinstance(t, ast.Compare) and len(t.ops) == 1 and isinstance(t.ops[0], (ast.Lt, ast.LtE, ast.Eq)) \
+                                        and isinstance(t.comparators[0], ast.Constant) and self._is_last_index(t.left, E):
+                                    c_ = t.comparators[0].value
+                                    if (isinstance(t.ops[0], ast.Lt) and c_ == 1) or (isinstance(t.ops[0], (ast.LtE, ast.Eq)) and c_ == 0):
+                                        two_entries[0] = True
+                            for t in tests:
+                                if isinstance(t, ast.Compare) and len(t.ops) == 1 and (isinstance(t.ops[0], ast.GtE) or (isinstance(t.ops[0], ast.Gt) and strict_search)) \
+                                        and norm(t.left) == X:
+                                    r = t.comparators[0]
+                                    if isinstance(r, ast.Subscript) and isinstance(r.value, ast.Name) and r.value.id == E and self._is_last_index(r.slice, E):
+                                        if isinstance(t.ops[0], ast.GtE):
+                                            return True
+                                        found_strict[0] = True
+                    if found_strict[0] and (two_entries[0] or self._contract_two_entries(E)):
+                        return True
                     # X (or E) reassigned between guard and loop?
                     if stores_in(s) & xnames:
                         return False
                 return False
+        return False
+
+    def _contract_two_entries(self, E):
+        """Does the contract require len(R) >= 2 for E or the array E is derived from element by element?"""
+        import re as _re
+        for text, _ in self.contract.get('requires', []):
+            m = _re.match(r'^len\((\w+)\) >= (\d+)$', text.strip())
+            if m and int(m.group(2)) >= 2 and self._is_last_index(ast.parse(f'len({m.group(1)}) - 1', mode='eval').body, E):
+                return True
         return False
 
     def _is_last_index(self, sl, E):
